@@ -1,12 +1,15 @@
 import Traph
 import Proofs.AutoCreate
+import Proofs.RuleInstallCor
 /-! C06 — automatic creation follows the rules. The decision ladder of `__add_page` for an arbitrary rule table
     (`C06_ladder`): nothing is created when the longest candidate is not longer than the existing prefix
     (`C06_covered_creates_nothing`, `C06_post_no_creation`); otherwise one webentity is created and reported,
     owning K plus the variations not already owned, and the page resolves to it (`C06_post_creation`); the
-    potential-prefix query runs the same ladder read-only (`C06_potential*`). Rule installation on a populated
-    index is covered at the level of pages and attachments by C01/C04 (`addRule` is one of the requests of
-    `C01_pages`, `C04_history_fresh`). -/
+    potential-prefix query runs the same ladder read-only (`C06_potential*`). Installing a rule on a populated
+    index IS re-inserting, in the traversal's order, every page beneath its anchor (`C06_rule_install`: an
+    equation between the request and the fold of re-insertions over exactly those pages, each once), with the
+    corollaries `C06_rule_install_pages` (no page or mark changes), `_resolves`, `_others`
+    (Proofs/GraftChain, ChainOps, RuleInstall, RuleFuel*, RuleInstallCor). -/
 namespace Traph.Props
 open Traph State
 
@@ -93,5 +96,38 @@ theorem C06_potential {s : State} {t : T} (h : Shape s t) (lru : Bytes) (hne : l
       (∀ e, s.retrievePrefix lru = .error e → s.potentialPrefix lru = .ok none)) ∧
     (s.autoPlan lru = none → s.potentialPrefix lru = .error (.other "KeyError")) :=
   Traph.C06_potential h lru hne
+
+/-! ### installing a rule on a populated index (Proofs/RuleInstall*) -/
+
+/-- THE LAST CLAUSE: in every reachable state, `add_webentity_creation_rule(anchor, r)` equals — final index AND report — registering the rule, inserting and flagging the anchor (`rulePrologue`), then re-inserting one after another the pages of the list `L`, which holds exactly the pages whose LRU has the anchor as a stem-prefix (the anchor itself included if it is a page), each once, in the traversal's order. The order is the model's DFS order; ids depend on it (`order_matters_ids` in Proofs/RuleInstallCor) -/
+theorem C06_rule_install (cfg : Config) (dflt : Rule) (rules : List (Bytes × Rule)) (ops : List Op)
+    (hrules : ∀ ar ∈ rules, lruIter ar.1 ≠ [])
+    (hop : ∀ op ∈ ops, ∀ d rs, op ≠ .clear d rs) (hwf : ∀ op ∈ ops, OpWf op)
+    (hok : NoKeyErr (State.fresh cfg dflt rules []).1 ops)
+    (anchor : Bytes) (r : Rule) (hne : lruIter anchor ≠ []) :
+    let s := (State.fresh cfg dflt rules []).1.run ops
+    let L := (s.rulePrologue anchor r).1.pagesBelow (s.rulePrologue anchor r).2 anchor
+    (s.step (.addRule anchor r)).1 = ((s.rulePrologue anchor r).1.reinsert L {}).1 ∧
+    (s.step (.addRule anchor r)).2 = Ans.ofExcept .report ((s.rulePrologue anchor r).1.reinsert L {}).2 ∧
+    L.Nodup ∧
+    ∃ t, Shape s t ∧ ∀ lru, lru ∈ L ↔ ∃ p, IsPage s t p ∧ lruIter anchor <+: p ∧ lru = p.flatten :=
+  Traph.C06_rule_install_reachable cfg dflt rules ops hrules hop hwf hok anchor r hne
+
+/-- the installation adds no page, removes none, changes no crawled mark, and reports 0 new pages -/
+theorem C06_rule_install_pages {s : State} {t : T} (h : Shape s t) (hi : Inv s t) (anchor : Bytes) (r : Rule)
+    (hne : lruIter anchor ≠ []) :
+    ∃ t', Shape (s.addRule anchor r true).1 t' ∧
+      (∀ p, IsPage (s.addRule anchor r true).1 t' p ↔ IsPage s t p) ∧
+      (∀ p, IsCrawled (s.addRule anchor r true).1 t' p ↔ IsCrawled s t p) ∧
+      (∀ rp, (s.addRule anchor r true).2 = .ok rp → rp.pages = 0) :=
+  Traph.C06_rule_install_pages h hi anchor r hne
+
+/-- an LRU none of whose stem-prefixes is a prefix reported as created keeps its webentity and defining prefix -/
+theorem C06_rule_install_others {s : State} {t : T} (h : Shape s t) (anchor : Bytes) (r : Rule) (rp : Report)
+    (hok : (s.addRule anchor r true).2 = .ok rp) (q : Bytes)
+    (hq : ∀ e ∈ rp.we, ∀ v ∈ e.2, ∀ j, lruIter v ≠ (lruIter q).take j) :
+    (s.addRule anchor r true).1.retrieveWebentity q = s.retrieveWebentity q ∧
+    (s.addRule anchor r true).1.retrievePrefix q = s.retrievePrefix q :=
+  Traph.C06_rule_install_others h anchor r rp hok q hq
 
 end Traph.Props
